@@ -369,6 +369,46 @@ func genC19(c *Ctx, r *rng.R, i int) {
 	if uv.ContainsMarked() {
 		c.Fail("C19/unmark-incomplete", "UnmarkDeepWithPaths left marks behind", desc)
 	}
+	// the list of paths and marks belongs to the caller: applying it leaves it as it was, so a second application
+	// (several marked siblings, in the order UnmarkDeepWithPaths reports them and reversed) marks the same members
+	{
+		mv := placeMarks(r, placeMarks(r, uv, false), r.Bool())
+		u2, pvm2 := mv.UnmarkDeepWithPaths()
+		if r.Bool() {
+			for i, j := 0, len(pvm2)-1; i < j; i, j = i+1, j-1 {
+				pvm2[i], pvm2[j] = pvm2[j], pvm2[i]
+			}
+		}
+		showPVM := func(l []cty.PathValueMarks) string {
+			var out []string
+			for _, e := range l {
+				var ms []string
+				for m := range e.Marks {
+					ms = append(ms, fmt.Sprintf("%#v", m))
+				}
+				sort.Strings(ms)
+				out = append(out, showPath(e.Path)+"="+strings.Join(ms, ","))
+			}
+			return strings.Join(out, ";")
+		}
+		before := showPVM(pvm2)
+		var first, second cty.Value
+		p1, _ := recovered(func() { first = u2.MarkWithPaths(pvm2) })
+		mid := showPVM(pvm2)
+		p2, _ := recovered(func() { second = u2.MarkWithPaths(pvm2) })
+		c.Count("oracle_evals")
+		md := map[string]interface{}{"v": cq.Show(mv), "paths": before}
+		switch {
+		case p1 || p2:
+			c.Fail("C19/markwithpaths-reuse", "MarkWithPaths panicked", md)
+		case mid != before:
+			c.Fail("C19/markwithpaths-reuse", "MarkWithPaths changed the caller's list of paths and marks: "+mid, md)
+		case !first.RawEquals(mv) && !setMemberMarks(mv) && !pathThroughSetAny(mv, pvm2):
+			c.Fail("C19/marks-roundtrip", "MarkWithPaths(UnmarkDeepWithPaths(v)) = "+cq.Show(first), md)
+		case !second.RawEquals(first):
+			c.Fail("C19/markwithpaths-reuse", "the second application of the same list gives "+cq.Show(second)+", the first "+cq.Show(first), md)
+		}
+	}
 	var uan cty.Value
 	pn, _ = recovered(func() { uan = cty.UnknownAsNull(uv) })
 	c.Add("unknown-as-null", fmt.Sprintf("K19_uan %s %s", cq.Val(uv), cq.ResVal(uan, pn)), desc, !uv.IsWhollyKnown())
@@ -599,3 +639,12 @@ func (t *enterReplacer) Exit(p cty.Path, v cty.Value) (cty.Value, error) {
 }
 
 func genKey(p cty.Path) string { return fmt.Sprintf("%#v", p) + "/" }
+
+func pathThroughSetAny(root cty.Value, pvm []cty.PathValueMarks) bool {
+	for _, e := range pvm {
+		if pathThroughSet(root, e.Path) {
+			return true
+		}
+	}
+	return false
+}
